@@ -571,6 +571,9 @@ func TestCfgDump(t *testing.T) {
 				}
 			case "empty-object":
 				return nest(ps[rng.Intn(len(ps))], map[string]any{})
+			case "null-unknown": // removing a member that is not there (and is no known option): a no-op
+				p := objs[rng.Intn(len(objs))]
+				return nest(append(append(path(nil), p...), "zzObsolete"), nil)
 			case "echo-section": // a section of the same document sent back verbatim, nulls included
 				p := objs[1+rng.Intn(len(objs)-1)]
 				v, _ := at(doc, p)
@@ -578,7 +581,7 @@ func TestCfgDump(t *testing.T) {
 			}
 			panic(class)
 		}
-		classes := []string{"transplant", "delete", "unknown-key", "wrong-type", "empty-object", "echo-section"}
+		classes := []string{"transplant", "delete", "unknown-key", "wrong-type", "empty-object", "echo-section", "null-unknown"}
 		for _, c := range classes {
 			for i := 0; i < n; i++ {
 				add(bi, c, gen(c))
@@ -595,6 +598,13 @@ func TestCfgDump(t *testing.T) {
 			p := mergeShallow(gen("transplant"), gen("unknown-key"))
 			add(bi, "multi-unknown", p)
 		}
+		for i := 0; i < n/2+1; i++ { // an ordinary change next to null members for unknown options
+			p := mergeShallow(mergeShallow(gen("transplant"), gen("null-unknown")), gen("null-unknown"))
+			add(bi, "multi-null-unknown", p)
+		}
+		add(bi, "top-null-unknown", map[string]any{"obsolete": nil})
+		add(bi, "nested-null-unknown", map[string]any{"config": map[string]any{"obsoleteOption": nil,
+			"status": map[string]any{"gone": nil}, "servers": map[string]any{"gone": nil}}})
 		// fixed ones: whole-document patches
 		add(bi, "identity", map[string]any{})
 		add(bi, "echo-all", doc)
